@@ -1,5 +1,24 @@
-(* Development target for the LMDB write-path model (not a property). *)
-From NR Require Import Lib.Base KVW.Types KVW.Entries KVW.Write KVW.PostSave KVW.Gc KVW.Run.
-Example kvw_init_coherent : KVW.Oracles.coherent_b init_db = true.
+(* Development target for the LMDB write path: the LMDB halves of C07, C09, C08, C17, C06
+   (final statements in coq/KVW/Thm_*.v), re-stated for Print Assumptions.  C10 has its own file. *)
+From NR Require Import KVW.Thm_Common KVW.Thm_C07 KVW.Thm_C09 KVW.Thm_C08 KVW.Thm_C17 KVW.Thm_C06 KVW.Run.
+Print Assumptions C07_kv_single_txn.
+Print Assumptions C07_kv_fail_at_k.
+Print Assumptions C07_kv_kill_at_k.
+Print Assumptions C07_kv_later_unaffected.
+Print Assumptions C09_kv_replace.
+Print Assumptions C09_kv_newest_survives.
+Print Assumptions C09_kv_regular_removes_nothing.
+Print Assumptions C08_kv_delete.
+Print Assumptions C08_kv_deleted_unreachable.
+Print Assumptions C17_kv_collect_exact.
+Print Assumptions C17_kv_gc_exact.
+Print Assumptions C17_kv_gc_frame.
+Print Assumptions C06_kv_refused_no_trace.
+Print Assumptions C06_kv_duplicate.
+Print Assumptions C06_kv_valid_accepted.
+Print Assumptions C06_kv_ack_true_stored.
+Print Assumptions C06_kv_ack_true_stored_refuted_engine_failure.
+Print Assumptions C06_kv_duplicate_refuted_in_flight.
+Print Assumptions inv_history.
+Example kvw_init_coherent : coherent_b KVW.Run.init_db = true.
 Proof. vm_compute. reflexivity. Qed.
-Print Assumptions kvw_init_coherent.
